@@ -189,6 +189,9 @@ func (dm *DMap) lockFragment(part *partitions.Partition) (*fragment, error) {
 		if err != nil {
 			return nil, err
 		}
+		if verifhook.Enabled {
+			verifhook.Point("fragment.loaded", dm.s.rt.This().String(), dm.name)
+		}
 		f.Lock()
 		select {
 		case <-f.ctx.Done():
